@@ -20,7 +20,7 @@ Eval(j) ==
     [] j.fn = "sha512"       -> Sha512(j.msg)
     [] j.fn = "hmacsha512256" -> HmacSha512256(j.key, j.msg)
     [] j.fn = "siphash24"    -> SipHash24(j.key, j.msg)
-    [] j.fn = "kdf"          -> KdfDerive(j.outlen, j.id, j.ctx, j.key)
+    [] j.fn = "kdf"          -> KdfDerive(j.outlen, j.subkey_id, j.ctx, j.key)
     [] j.fn = "argon2"       -> Argon2(j.type, j.pwd, j.salt, j.t, j.m, j.outlen)
     [] j.fn = "hchacha20"    -> IF Len(j.const) = 16 THEN HChaCha20C(j.key, j.input, j.const) ELSE HChaCha20(j.key, j.input)
     [] j.fn = "hsalsa20"     -> IF Len(j.const) = 16 THEN HSalsa20C(j.key, j.input, j.const) ELSE HSalsa20(j.key, j.input)
